@@ -5,12 +5,13 @@ open CC CC.Spec
 open CC.Spec.DPool (Op)
 
 /-- a refusal fires in `malloc` **iff** the request needs a new page that the pool may add (smaller
-than the newest page, does not fit there, pool expandable, fits the next page size) and the
-allocator refuses it -/
+than the newest page, does not fit there, pool expandable, fits the next page size, which is
+addressable) and the pool's allocator triple refuses it -/
 theorem malloc_refused_iff (grow : Nat → Nat) (fresh : Nat) (s : DynamicPool) (n : Nat) (m : Mem) :
     (DynamicPool.malloc grow fresh s n m).2.2.nrefused ≠ m.nrefused ↔
       (n < s.topPageSize ∧ ¬ n + padOf s.isPacked s.ab n ≤ s.topPageSize - s.free ∧ s.isFixed = false ∧
-        n + padOf s.isPacked s.ab n ≤ grow s.topPageSize ∧ m.alloc.1 = false) :=
+        n + padOf s.isPacked s.ab n ≤ grow s.topPageSize ∧ grow s.topPageSize ≤ pageLimit ∧
+        (m.allocT s.triple).1 = false) :=
   DynamicPool.malloc_refused_iff grow fresh s n m
 
 /-- **atomic**: when the page is refused, `malloc`/`calloc` return NULL, every field of the pool
@@ -18,10 +19,10 @@ theorem malloc_refused_iff (grow : Nat → Nat) (fresh : Nat) (s : DynamicPool) 
 theorem refused_page_atomic (grow : Nat → Nat) (fresh : Nat) (s : DynamicPool) (m : Mem) :
     (∀ n, (DynamicPool.malloc grow fresh s n m).2.2.nrefused ≠ m.nrefused →
       (DynamicPool.malloc grow fresh s n m).1 = none ∧ (DynamicPool.malloc grow fresh s n m).2.1 = s ∧
-      (DynamicPool.malloc grow fresh s n m).2.2.live = m.live) ∧
+      (DynamicPool.malloc grow fresh s n m).2.2.liveT s.triple = m.liveT s.triple) ∧
     (∀ c k, (DynamicPool.calloc grow fresh s c k m).2.2.nrefused ≠ m.nrefused →
       (DynamicPool.calloc grow fresh s c k m).1 = none ∧ (DynamicPool.calloc grow fresh s c k m).2.1 = s ∧
-      (DynamicPool.calloc grow fresh s c k m).2.2.live = m.live) :=
+      (DynamicPool.calloc grow fresh s c k m).2.2.liveT s.triple = m.liveT s.triple) :=
   C13.refused_page_atomic grow fresh s m
 
 /-- **continue**: a history that starts with a refused `malloc` continues, on the pool, exactly as
@@ -41,20 +42,46 @@ theorem no_refusal (grow : Nat → Nat) (fresh : Nat) (s : DynamicPool) (n : Nat
     (DynamicPool.malloc grow fresh s n m).2.2.nrefused = m.nrefused := by
   apply Decidable.byContradiction
   intro h
-  have := ((malloc_refused_iff grow fresh s n m).1 h).2.2.2.2
-  rw [(Mem.alloc_nil m hs).1] at this; cases this
+  have := ((malloc_refused_iff grow fresh s n m).1 h).2.2.2.2.2
+  rw [(Mem.allocT_nil m s.triple hs).1] at this; cases this
 
-/-- the constructor: `CC_ERR_ALLOC` iff one of its two allocator calls is refused; then there is no
-pool and nothing leaked -/
-theorem new_refused_iff (size ab fresh : Nat) (fixed packed : Bool) (m : Mem) :
-    (DynamicPool.new size fixed packed ab fresh m).1 = .errAlloc ↔ (m.alloc.1 = false ∨ m.alloc.2.alloc.1 = false) := by
+/-- a pool on the C library (`cc_dynamic_pool_new`) is never refused a page -/
+theorem libc_never_refused (grow : Nat → Nat) (fresh : Nat) (s : DynamicPool) (n : Nat) (m : Mem) (ht : s.triple = .libc) :
+    (DynamicPool.malloc grow fresh s n m).2.2.nrefused = m.nrefused := by
+  apply Decidable.byContradiction
+  intro h
+  have := ((malloc_refused_iff grow fresh s n m).1 h).2.2.2.2.2
+  rw [ht] at this; cases this
+
+/-- the constructor: `CC_ERR_ALLOC` iff the size is acceptable and one of its two allocator calls is
+refused; then there is no pool and nothing leaked -/
+theorem new_refused_iff (size ab fresh : Nat) (fixed packed : Bool) (t : Triple) (m : Mem) :
+    (DynamicPool.new size fixed packed ab fresh t m).1 = .errAlloc ↔
+      (size ≤ pageLimit ∧ ((m.allocT t).1 = false ∨ ((m.allocT t).2.allocT t).1 = false)) := by
   unfold DynamicPool.new; dsimp only
-  cases m.alloc.1 <;> cases m.alloc.2.alloc.1 <;> simp
+  rw [DynamicPool.pgLimit_eq]
+  by_cases h0 : size > pageLimit
+  · have : ¬ size ≤ pageLimit := by omega
+    simp [h0, this]
+  · have : size ≤ pageLimit := by omega
+    simp only [h0, if_false, this, true_and]
+    cases (m.allocT t).1 <;> cases ((m.allocT t).2.allocT t).1 <;> simp
 
-theorem new_atomic (size ab fresh : Nat) (fixed packed : Bool) (m : Mem)
-    (h : (DynamicPool.new size fixed packed ab fresh m).1 = .errAlloc) :
-    (DynamicPool.new size fixed packed ab fresh m).2.1 = none ∧
-    (DynamicPool.new size fixed packed ab fresh m).2.2.live = m.live :=
-  (C13.new_refused size ab fresh fixed packed m (by rw [h]; simp)).2
+theorem new_atomic (size ab fresh : Nat) (fixed packed : Bool) (t : Triple) (m : Mem)
+    (h : (DynamicPool.new size fixed packed ab fresh t m).1 = .errAlloc) :
+    (DynamicPool.new size fixed packed ab fresh t m).2.1 = none ∧
+    (DynamicPool.new size fixed packed ab fresh t m).2.2.liveT t = m.liveT t :=
+  ⟨(C13.new_refused size ab fresh fixed packed t m (by rw [h]; simp)).2.1,
+   (C13.new_refused size ab fresh fixed packed t m (by rw [h]; simp)).2.2.1⟩
+
+/-! Non-vacuity: a refusing schedule on a pool that must grow -/
+example :
+    let s : DynamicPool := DynamicPool.mk .conf false true 4 1 [PPage.mk 4 [1, 1, 1, 238] [PBlk.mk 0 3 3]] 3 0 true
+    let m : Mem := { sched := [true], live := 2 }
+    s.Inv ∧ (DynamicPool.malloc (fun c => 2 * c) 238 s 3 m).1 = none ∧
+    (DynamicPool.malloc (fun c => 2 * c) 238 s 3 m).2.1 = s ∧
+    (DynamicPool.malloc (fun c => 2 * c) 238 s 3 m).2.2.nrefused = 1 ∧
+    (DynamicPool.malloc (fun c => 2 * c) 238 s 3 {}).1 = some (1, 0) := by
+  decide
 
 end CC.Properties.C08DynamicPool
